@@ -7,7 +7,7 @@ V=sys.argv[1]; flt=sys.argv[2] if len(sys.argv)>2 else ''
 OUT='/tmp/wt/mut'
 ENV=dict(os.environ, GOFLAGS='-mod=mod', GOPROXY='off', GOSUMDB='off', GOTOOLCHAIN='local', VERIF_BUDGET_S='200')
 MAP=[('simple_',['C17']),('kvs_',['C18']),('super_',['C15','C02']),('fh_',['C08','C11']),('cache_',['C10','C03']),
-     ('dcache_',['C02','C10']),('dir_',['C02','C13','C10','C04']),('inode_shrink',['C12','C05','C04','C01']),('inode_',['C02','C12','C04','C05']),
+     ('dcache_',['C02','C10']),('dir_',['C02','C13','C10','C04']),('inode_shrink',['C04','C05','C12','C10']),('inode_',['C02','C12','C04','C05']),
      ('alloctxn_',['C05','C09','C15']),('fstxn_',['C10','C09','C05','C01']),('shrinker_',['C05','C12','C03']),
      ('nfs_nfs_ops',['C02','C19','C13','C11','C08','C09','C07']),('nfs_nfs_ls',['C13','C02']),('nfs_lorder',['C06','C03']),('nfs_mount',['C11','C02']),('nfs_nfs.go',['C15','C02','C07','C05'])]
 done={}
